@@ -46,9 +46,11 @@ def run(argv, workdir, stdin=b'', mode='pipe', timeout=20, extra_env=None, retry
     stderr is always a pipe."""
     logdir = os.path.join(workdir, 'san')
     os.makedirs(logdir, exist_ok=True)
+    # wall-clock limits are watchdogs only: a timeout is re-run with a four times longer limit (the machine may just be
+    # loaded); only a second timeout is reported as a hang
     for attempt in (0, 1):
         clear_san_logs(logdir)
-        r = _run_once(argv, workdir, stdin, mode, timeout, extra_env, logdir)
+        r = _run_once(argv, workdir, stdin, mode, timeout if attempt == 0 else timeout * 4, extra_env, logdir)
         if not r.timeout or not retry_timeout or attempt == 1:
             return r
     return r
